@@ -10,14 +10,17 @@
    Deliberate abstractions (each covered by the differential run, T2):
    * file I/O is complete (pread/pwrite transfer what is available/asked; no EINTR, ENOSPC);
    * a memcpy outside [0, len) of a window is the outcome EXF_CRASH (the real code has undefined behaviour);
-   * no data listener (dlsnr = 0), no locks (single caller), the file is opened read-write.
-   The operating system may REFUSE to grow the file (RLIMIT_FSIZE -> EFBIG, ENOSPC, EDQUOT): every function
-   that can reach iwp_fallocate takes an oracle `ok : os_ok`; `ok n = false` means ftruncate/fallocate to n
-   bytes fails.  _exfile_truncate_lw then takes its `truncfail` exit.  Shrinking is never refused, and
-   pwrite never extends the file in the repaired tree (every writer ensures the size first).
-   Three places where the current tree may be in its unrepaired or repaired form are switched by the
-   behavioural facts EXF_MUL_GE_NSIZE / EXF_COPY_ENSURES / EXF_COPY_SRC_CHECKED (tools/probes/probe_exf.c),
-   see notes/exf.md. *)
+   * no data listener (dlsnr = 0); the file is opened read-write (a read-only open is modelled up to the open itself:
+     exfile_open_ro); the rwlock of the handle is modelled for one caller only (lstep: a call that needs the write lock while
+     the caller holds a read lock never returns, EXF_HANG).
+   The operating system is an oracle `ok : os_ok` handed to every function that can reach it:
+   * os_grow ok n = false: ftruncate/fallocate to n bytes fails (RLIMIT_FSIZE -> EFBIG, ENOSPC, EDQUOT); _exfile_truncate_lw
+     takes its `truncfail` exit.  Shrinking is never refused, and pwrite never extends the file in the repaired tree;
+   * os_map ok t = false: an mmap that would bring the windows of this file to t bytes fails (ENOMEM: RLIMIT_AS,
+     vm.max_map_count); _exfile_initmmap_slot_lw leaves the slot unmapped (len = 0: served through the file),
+     _exfile_initmmap_lw stops at that slot, a growth is rolled back (70a7dcd).
+   Places where the current tree may be in its unrepaired or repaired form are switched by behavioural facts
+   (tools/probes/probe_exf.c -> record `quirks`), see notes/exf.md.  The plain file underneath (iwfile.c) is FS/ExfFile.v. *)
 Require Import ZArith List Bool Lia.
 Require Import IW.Lib.CInt IW.Gen.Facts.
 Import ListNotations.
